@@ -544,7 +544,8 @@ func genBatch(c *hc.Ctx, n int) []c20ops.Op {
 		case r < 0.93:
 			op = c20ops.Op{Kind: "TextBox", S: genText(c), F: []float64{float64(8 + c.Intn(8)), float64(20 + c.Intn(40)), float64(20 + c.Intn(40)), float64(c.Intn(4)), float64(c.Intn(3))}}
 		case r < 0.98:
-			op = c20ops.Op{Kind: "Render", A: poly(0, 2, 3, 4), S: (genText(c) + "      ")[:6], F: []float64{c.Range(0.1, 1), float64(8 + c.Intn(6))}}
+			op = c20ops.Op{Kind: "Render", A: poly(0, 2, 3, 4), S: (genText(c) + "      ")[:6], F: []float64{c.Range(0.1, 1), float64(8 + c.Intn(6)), float64(c.Intn(2)), float64(c.Intn(2))}}
+			c.Count(fmt.Sprintf("render:cff=%v,svgsubset=%v", op.F[2] == 1, op.F[3] == 1))
 		default:
 			op = c20ops.Op{Kind: "LoadFont"}
 		}
@@ -794,6 +795,13 @@ func raceRun(c *hc.Ctx, d dirs, env *c20ops.Env, ops []c20ops.Op) {
 	for i := 0; i < 16; i++ {
 		batch = append(batch, c20ops.Op{Kind: "LoadFont"})
 	}
+	nrender := 0
+	for _, op := range ops { // a block of canvases rendered with the shared fonts at the same time
+		if op.Kind == "Render" && nrender < 32 {
+			batch = append(batch, op)
+			nrender++
+		}
+	}
 	batch = append(batch, ops[:n]...)
 	nn := 32
 	if c.Tier != "quick" {
@@ -850,17 +858,7 @@ func raceRun(c *hc.Ctx, d dirs, env *c20ops.Env, ops []c20ops.Op) {
 	}
 	var got [][]string
 	if b, err := os.ReadFile(of); err == nil && json.Unmarshal(b, &got) == nil && len(got) == 2 && len(got[0]) == len(batch) {
-		// the race driver is another process with its own shared font: calls whose result depends on
-		// the state of that font are compared only inside one process (phases above)
-		var b2 []c20ops.Op
-		var base2, g0, g1 []string
-		for i, op := range batch {
-			if op.Kind == "Render" || op.Kind == "SharedFontState" {
-				c.Count("race:skip-cross-process-font-state")
-				continue
-			}
-			b2, base2, g0, g1 = append(b2, op), append(base2, base[i]), append(g0, got[0][i]), append(g1, got[1][i])
-		}
+		b2, base2, g0, g1 := batch, base, got[0], got[1]
 		compare(c, "16-goroutines-race-build", b2, base2, g0)
 		compare(c, "16-goroutines-race-build", b2, base2, g1)
 	} else {
